@@ -711,6 +711,14 @@ def run_batches(funcs: list[dict[str, Any]], root: str, tag: str, nb: int, worke
     return res
 
 
+def family_key(case: str, def_index: list[str]) -> str:
+    """d<i>.<callee>.<flag> of the definedness family -> def:<shape>/<type>:<callee>.<flag>"""
+    m = re.match(r"d(\d+)\.(.*)$", case)
+    if m and int(m.group(1)) < len(def_index):
+        return "def:%s:%s" % (def_index[int(m.group(1))], m.group(2))
+    return case
+
+
 def norm_fn(fn: str) -> str:
     """Compiler-generated helper functions are the same code in every program: name them generically."""
     if fn.endswith(".__mypyc_generator_helper__"):
@@ -799,6 +807,8 @@ def compile_probes(workdir: str, want_text: bool = False, which: str = "c06probe
     if which == "c06probes":
         with open(PROBES_SRC, encoding="utf-8") as f:
             src = f.read()
+    elif which == "c06def":
+        src = definedness_source()
     else:
         src = generated_source(ngen)
     case = dict(file="<probes>", name=which, main=src, files={}, real_typeshed=True)
@@ -828,7 +838,8 @@ def export_probes(args: tuple[str, str, int]) -> dict[str, Any]:
 def build_probes(d: str, opt: str, ngen: int) -> None:
     """Compile the probe module and the generated family to C extensions with the working tree's
     mypyc (real command line); each module is built by its own mypyc process."""
-    mods = {"c06probes": open(PROBES_SRC, encoding="utf-8").read(), "c06gen": generated_source(ngen)}
+    mods = {"c06probes": open(PROBES_SRC, encoding="utf-8").read(), "c06gen": generated_source(ngen),
+            "c06def": definedness_source()}
     os.makedirs(os.path.join(d, "interp"), exist_ok=True)
     shutil.copyfile(RUNNER_SRC, os.path.join(d, "c06_runner.py"))
     shutil.copyfile(RUNNER_SRC, os.path.join(d, "interp", "c06_runner.py"))
@@ -848,7 +859,7 @@ def build_probes(d: str, opt: str, ngen: int) -> None:
             raise MachineryError("mypyc build of %s failed (-O%s): %s" % (name, opt, (p.stdout + p.stderr)[-1500:]))
         shutil.copyfile(os.path.join(bd, so[0]), os.path.join(d, so[0]))
 
-    with ThreadPoolExecutor(2) as ex:
+    with ThreadPoolExecutor(3) as ex:
         list(ex.map(one, sorted(mods)))
 
 
@@ -856,31 +867,46 @@ ISOLATED_CASES = ("gen_close_no_builtins",)
 
 
 def run_probes(d: str, n: int, seed: int, only: str | None = None, module: str = "c06probes") -> dict[str, Any]:
-    """Run the runner in a child; returns results, and the case during which the child died (if any)."""
+    """Run the runner in a child; returns results and the cases during which a child died.  After a
+    death the remaining cases run in a fresh child (at most MAX_DEATHS times), so that one crash does
+    not hide the others."""
     env = dict(os.environ)
     env.pop("PYTHONPATH", None)
     env["PYTHONDONTWRITEBYTECODE"] = "1"
     env["PYTHONHASHSEED"] = "0"
-    cmd = [PY, "c06_runner.py", module, str(n), str(seed)] + ([only] if only else [])
-    try:
-        p = subprocess.run(cmd, cwd=d, env=env, capture_output=True, text=True, timeout=600)
-        out, err, rcode = p.stdout, p.stderr, p.returncode
-    except subprocess.TimeoutExpired as e:   # a probe that never returns is as bad as one that crashes
-        out = e.stdout.decode() if isinstance(e.stdout, bytes) else (e.stdout or "")
-        err, rcode = "timeout: the child did not finish within 600s", "timeout"
     results: dict[tuple[str, str], dict[str, Any]] = {}
-    begun = None
-    done = False
-    for line in out.splitlines():
-        if line.startswith("BEGIN "):
-            begun = line[6:]
-        elif line.startswith("RESULT "):
-            r = json.loads(line[7:])
-            results[(r["case"], r["kind"])] = r
-            begun = None
-        elif line == "DONE":
-            done = True
-    return dict(results=results, rc=rcode, died_in=None if done else (begun or "?"), stderr=err[-800:])
+    deaths: list[dict[str, Any]] = []
+    cmd = [PY, "c06_runner.py", module, str(n), str(seed)] + ([only] if only else [])
+    while True:
+        env["C06_SKIP"] = json.dumps(sorted("%s/%s" % k for k in results) + [x["case"] for x in deaths])
+        try:
+            p = subprocess.run(cmd, cwd=d, env=env, capture_output=True, text=True, timeout=600)
+            out, err, rcode = p.stdout, p.stderr, p.returncode
+        except subprocess.TimeoutExpired as e:   # a probe that never returns is as bad as one that crashes
+            out = e.stdout.decode() if isinstance(e.stdout, bytes) else (e.stdout or "")
+            err, rcode = "timeout: the child did not finish within 600s", "timeout"
+        begun = None
+        done = False
+        for line in out.splitlines():
+            if line.startswith("BEGIN "):
+                begun = line[6:]
+            elif line.startswith("RESULT "):
+                r = json.loads(line[7:])
+                results[(r["case"], r["kind"])] = r
+                begun = None
+            elif line == "DONE":
+                done = True
+        if done:
+            break
+        deaths.append(dict(case=begun or "?", rc=rcode, stderr=err[-500:]))
+        if begun is None or len(deaths) >= MAX_DEATHS:
+            break
+    first = deaths[0] if deaths else None
+    return dict(results=results, rc=first["rc"] if first else rcode, died_in=first["case"] if first else None,
+                stderr=first["stderr"] if first else err[-800:], deaths=deaths)
+
+
+MAX_DEATHS = 6
 
 
 # =========================================================================== main
@@ -961,9 +987,9 @@ def main(argv: list[str]) -> int:
         v.notes.append("C06_ONLY=%s: corpus restricted, development run" % only)
     ex = export_corpus(cases, os.path.join(root, "exp"), nproc=14)
     funcs = ex["funcs"]
-    with ProcessPoolExecutor(2, initializer=_worker_init) as pool:
-        pe = list(pool.map(export_probes, [(root, "c06probes", 0), (root, "c06gen", ngen["0"])]))
-    pex = dict(funcs=pe[0]["funcs"] + pe[1]["funcs"])
+    with ProcessPoolExecutor(3, initializer=_worker_init) as pool:
+        pe = list(pool.map(export_probes, [(root, "c06probes", 0), (root, "c06gen", ngen["0"]), (root, "c06def", 0)]))
+    pex = dict(funcs=pe[0]["funcs"] + pe[1]["funcs"] + pe[2]["funcs"])
     n_corpus = len(funcs)
     print("exported %d function records (%d ops) from %d/%d programs in %.0fs; %d programs did not compile"
           % (n_corpus, sum(f["nops"] for f in funcs), ex["stats"]["compiled"], ex["stats"]["cases"],
@@ -1055,6 +1081,7 @@ def main(argv: list[str]) -> int:
         if stage == "final" and fn not in cut:
             exits[fn] = kinds
     dyn_compared = 0
+    def_index = definedness_index()
     other_diffs: list[str] = []
     dyn_samples: list[Any] = []
     drift: list[str] = []
@@ -1074,14 +1101,19 @@ def main(argv: list[str]) -> int:
         base = run_probes(os.path.join(d, "interp"), max(5, n // 6), seed)
         gcomp = run_probes(d, max(10, n // 4), seed, module="c06gen")
         gbase = run_probes(os.path.join(d, "interp"), 5, seed, module="c06gen")
-        for bb in (base, gbase):
+        dcomp = run_probes(d, max(10, n // 4), seed, module="c06def")
+        dbase = run_probes(os.path.join(d, "interp"), 5, seed, module="c06def")
+        for bb in (base, gbase, dbase):
             if bb["died_in"] or bb["rc"] != 0:
                 raise MachineryError("interpreted baseline run failed: %s %s" % (bb["died_in"], bb["stderr"]))
         if len(gcomp["results"]) < 6 * ngen[o] and not gcomp["died_in"]:
             raise MachineryError("generated-family runner produced only %d results" % len(gcomp["results"]))
-        comp["results"].update(gcomp["results"])
-        base["results"].update(gbase["results"])
-        deaths = [comp, gcomp]
+        if len(dcomp["results"]) < 12 * len(def_index) and not dcomp["died_in"]:
+            raise MachineryError("definedness-family runner produced only %d results" % len(dcomp["results"]))
+        for extra_c, extra_b in ((gcomp, gbase), (dcomp, dbase)):
+            comp["results"].update(extra_c["results"])
+            base["results"].update(extra_b["results"])
+        deaths = [comp, gcomp, dcomp]
         for iso in ISOLATED_CASES:     # cases that may kill the process run in a child of their own
             ci = run_probes(d, 3, seed, only=iso)
             bi = run_probes(os.path.join(d, "interp"), 3, seed, only=iso)
@@ -1091,12 +1123,12 @@ def main(argv: list[str]) -> int:
             base["results"].update(bi["results"])
             deaths.append(ci)
         for cd in deaths:
-            if cd["died_in"]:
-                case = cd["died_in"].split("/")[0]
+            for dd in cd["deaths"]:
+                case = family_key(dd["case"].split("/")[0], def_index)
                 dyn_compared += 1
-                v.violation("dyn:crash:" + case, {"kind": "dyn", "case": cd["died_in"].split("/"), "opt": o, "rc": cd["rc"]},
-                            "the child running the compiled probe module died (exit %s) during case %s at -O%s (CPython runs the same case fine): %s"
-                            % (cd["rc"], cd["died_in"], o, cd["stderr"][-300:]))
+                v.violation("dyn:crash:" + case, {"kind": "dyn", "case": dd["case"].split("/"), "opt": o, "rc": dd["rc"]},
+                            "the child running the compiled probe module died (exit %s) during case %s [%s] at -O%s (CPython runs the same case fine): %s"
+                            % (dd["rc"], dd["case"], case, o, dd["stderr"][-300:]))
         if len(comp["results"]) < 50 and not comp["died_in"]:
             raise MachineryError("probe runner produced only %d results" % len(comp["results"]))
         for ck in sorted(comp["results"]):
@@ -1116,6 +1148,8 @@ def main(argv: list[str]) -> int:
             if re.match(r"g\d+\.", case):
                 # the generated family: findings are keyed by the way the call ended, not by the function
                 case = "<generated>:" + "+".join(rc_["outs"])
+            elif re.match(r"d\d+\.", case):
+                case = family_key(case, def_index)
             if any(x > 0 for x in rc_["delta"]):
                 v.violation("dyn:leak:" + case, {"kind": "dyn", "case": ck, "opt": o, "result": rc_},
                             "compiled %s leaks: refcount delta %s after %d calls (%s per call) on %s objects, outcome %s; CPython: balanced"
@@ -1126,11 +1160,14 @@ def main(argv: list[str]) -> int:
                             % (case, rc_["delta"], rc_["n"], ck[1]))
             # the property's own oracle for undefined reads: UnboundLocalError / AttributeError exactly
             # where CPython raises them (other differences in behaviour are not C06's business)
+            # (UnboundLocalError / NameError / AttributeError count as one class: mypyc keeps generator
+            # locals in attributes of the environment object and reports them with AttributeError)
             undef = {"UnboundLocalError", "AttributeError", "NameError"}
-            if not rc_["typed"] and (set(rc_["outs"]) & undef) != (set(rb["outs"]) & undef):
-                v.violation("dyn:undefined-read:" + rc_["case"], {"kind": "dyn", "case": ck, "opt": o, "compiled": rc_["outs"], "cpython": rb["outs"]},
+            if not rc_["typed"] and bool(set(rc_["outs"]) & undef) != bool(set(rb["outs"]) & undef):
+                v.violation("dyn:undefined-read:" + family_key(rc_["case"], def_index),
+                            {"kind": "dyn", "case": ck, "opt": o, "compiled": rc_["outs"], "cpython": rb["outs"]},
                             "compiled %s: outcomes %s, CPython: %s (an undefined local / attribute must raise as in CPython)"
-                            % (rc_["case"], rc_["outs"], rb["outs"]))
+                            % (family_key(rc_["case"], def_index), rc_["outs"], rb["outs"]))
             elif not rc_["typed"] and rc_["outs"] != rb["outs"]:
                 other_diffs.append("%s/%s: %s vs %s" % (ck[0], ck[1], rc_["outs"], rb["outs"]))
             # the machine's prediction of how the function can be left
@@ -1168,7 +1205,10 @@ def main(argv: list[str]) -> int:
         "compiler_crashes_on_corpus_programs": [list(c) for c in crashes][:10],
         "bad_states_by_invariant": inv_counts,
         "dynamic_probe_runs_compared": dyn_compared, "dynamic_opt_levels": ["-O" + o for o in opts],
-        "generated_functions": ngen, "behaviour_differences_outside_property": other_diffs[:10],
+        "generated_functions": ngen, "definedness_family_functions": len(def_index),
+        "definedness_family": "%d local types x %d shapes, each x 3 callee behaviours x 2 flags x 2 object kinds"
+                              % (len(DEF_TYPES), len(DEF_SHAPES)),
+        "behaviour_differences_outside_property": other_diffs[:10],
         "probe_functions_model_checked": len(pex["funcs"]),
         "search_depth": res["depth"],
         "samples": [{"function": sample_f["prog"] + " " + sample_f["fn"] + " [" + sample_f["stage"] + "]",
@@ -1205,7 +1245,9 @@ def do_replay(path: str) -> int:
     if r.get("kind") == "dyn":
         d = os.path.join(root, "dyn")
         build_probes(d, r.get("opt", "0"), 240)
-        mod = "c06gen" if isinstance(r["case"], list) and re.match(r"g\d+\.", r["case"][0]) else "c06probes"
+        mod = "c06probes"
+        if isinstance(r["case"], list) and re.match(r"[gd]\d+\.", r["case"][0]):
+            mod = "c06gen" if r["case"][0].startswith("g") else "c06def"
         only = r["case"][0] if isinstance(r["case"], list) and r["case"][0] in ISOLATED_CASES else None
         comp = run_probes(d, 50, 0, only=only, module=mod)
         ck = tuple(r["case"]) if isinstance(r["case"], list) else None
@@ -1290,6 +1332,204 @@ def generated_source(nfuncs: int) -> str:
         src += _gen_block(rnd, 0, rnd.randint(3, 7), "    ", False)
         src += ["    return [x, y, l, t, d, s, n, k]", "", ""]
     return "\n".join(src) + "\n"
+
+
+
+# =========================================================================== definedness family
+# A fully enumerated (not sampled) family: every local TYPE x every SHAPE in which a local may be
+# unbound when it is read or released.  Every function has the signature (a, b, f, c) of the generated
+# family, so the runner calls it with every callee behaviour (returns / raises ValueError / raises
+# KeyError) x flag: each local type x each shape x each way of leaving x defined / undefined.
+# The types include the unboxed aggregates (tuples, nested tuples, tuples mixing int / float and
+# object items), whose release is open-coded per item by the C backend, and a bitmap-tracked type.
+DEF_TYPES = [
+    ("obj", "object", "a"),
+    ("lst", "list[object]", "[a, b]"),
+    ("big", "int", "len(l) + (1 << 70)"),
+    ("str", "str", "str(len(l)) + 'x'"),
+    ("nat", "K", "K(a)"),
+    ("flt", "float", "len(l) + 0.5"),
+    ("tup", "tuple[object, object]", "(a, b)"),
+    ("tin", "tuple[int, object]", "(len(l) + (1 << 70), a)"),
+    ("tfl", "tuple[float, object, str]", "(len(l) + 0.5, b, str(len(l)))"),
+    ("tne", "tuple[tuple[object, object], object]", "((a, b), b)"),
+    ("tnn", "tuple[object, tuple[int, tuple[object, str]]]", "(a, (len(l) + (1 << 70), (b, str(len(l)))))"),
+]
+
+# {T} type, {E} expression, {MK} a call that first calls f() (which may raise) and then returns {E}
+DEF_SHAPES = [
+    ("cond_same", """
+    if c:
+        v: {T} = {E}
+    f()
+    if c:
+        return [v]
+    return [l]"""),
+    ("cond_read", """
+    if c:
+        v: {T} = {E}
+    f()
+    return [v]"""),
+    ("try_after", """
+    try:
+        f()
+        v: {T} = {E}
+    except ValueError:
+        l.append(b)
+    return [v]"""),
+    ("handler_read", """
+    try:
+        v: {T} = {MK}
+    except ValueError:
+        l.append(b)
+        return [v]
+    return [v, l]"""),
+    ("nested_in_finally", """
+    try:
+        l.append(a)
+        try:
+            v: {T} = {MK}
+        except ValueError:
+            l.append(b)
+            return [v]
+    finally:
+        l.append(a)
+    return [v, l]"""),
+    ("nested_in_finally_after", """
+    try:
+        l.append(a)
+        try:
+            v: {T} = {MK}
+        except ValueError:
+            l.append(b)
+        l.append([v])
+    finally:
+        l.append(a)
+    return [l]"""),
+    ("nested_loop_in_finally", """
+    try:
+        for i in range(2):
+            l.append(a)
+            try:
+                v: {T} = {MK}
+            except ValueError:
+                l.append(b)
+            l.append([v])
+    finally:
+        l.append(a)
+    return [l]"""),
+    ("nested_in_except", """
+    try:
+        l.append(a)
+        try:
+            v: {T} = {MK}
+        except ValueError:
+            l.append([v])
+    except KeyError:
+        l.append(b)
+    return [v, l]"""),
+    ("nested_finally_in_except", """
+    try:
+        l.append(a)
+        try:
+            v: {T} = {MK}
+        finally:
+            l.append(b)
+    except ValueError:
+        return [v]
+    return [v, l]"""),
+    ("nested_three", """
+    try:
+        l.append(a)
+        try:
+            l.append(b)
+            try:
+                v: {T} = {MK}
+            except ValueError:
+                l.append([v])
+        finally:
+            l.append(a)
+    except KeyError:
+        return [v]
+    return [v, l]"""),
+    ("nested_in_with", """
+    with DefCtx(c):
+        l.append(a)
+        try:
+            v: {T} = {MK}
+        except KeyError:
+            l.append([v])
+    return [v, l]"""),
+    ("nested_in_loop_else", """
+    for i in range(2):
+        l.append(a)
+        try:
+            if c or i == 1:
+                v: {T} = {MK}
+        except ValueError:
+            return [v]
+    else:
+        l.append(b)
+    return [v, l]"""),
+    ("loop_alternate", """
+    for i in range(3):
+        if c and i == 1:
+            v: {T} = {E}
+        l.append(a)
+    f()
+    return [v]"""),
+    ("cond_del", """
+    v: {T} = {E}
+    if c:
+        del v
+    f()
+    return [v]"""),
+    ("reassign_in_try", """
+    if c:
+        v: {T} = {E}
+    try:
+        f()
+        v = {E}
+        f()
+    except ValueError:
+        return [v]
+    finally:
+        l.append(a)
+    return [v, l]"""),
+    ("finally_return", """
+    return [fr_{N}(f, a, b, l), l]"""),
+    ("generator", """
+    return list(dg_{N}(a, b, f, c, l))"""),
+]
+
+
+def definedness_source() -> str:
+    src = ["from typing import Any, Iterator", "", "",
+           "class K:", "    def __init__(self, v: object) -> None:", "        self.v = v", "", "",
+           "class DefCtx:", "    def __init__(self, swallow: bool) -> None:", "        self.swallow = swallow", "",
+           "    def __enter__(self) -> None:", "        pass", "",
+           "    def __exit__(self, x: object, y: object, z: object) -> bool:", "        return self.swallow", "", ""]
+    for name, typ, expr in DEF_TYPES:
+        src += ["def mk_%s(f: Any, a: object, b: object, l: list[object]) -> %s:" % (name, typ),
+                "    f()", "    return %s" % expr, "", "",
+                "def fr_%s(f: Any, a: object, b: object, l: list[object]) -> %s:" % (name, typ),
+                "    try:", "        f()", "        return %s" % expr, "    finally:", "        l.append(a)", "", "",
+                "def dg_%s(a: object, b: object, f: Any, c: bool, l: list[object]) -> Iterator[object]:" % name,
+                "    if c:", "        v: %s = %s" % (typ, expr), "    yield a", "    f()", "    yield [v]", "", ""]
+    i = 0
+    for sname, body in DEF_SHAPES:
+        for name, typ, expr in DEF_TYPES:
+            src.append("def d%d(a: object, b: object, f: Any, c: bool) -> object:" % i)
+            src.append("    # %s / %s" % (sname, name))
+            src.append("    l: list[object] = [a]")
+            src += body.format(T=typ, E=expr, MK="mk_%s(f, a, b, l)" % name, N=name).strip("\n").split("\n")
+            src += ["", ""]
+            i += 1
+    return "\n".join(src) + "\n"
+
+
+def definedness_index() -> list[str]:
+    return ["%s/%s" % (sname, name) for sname, _ in DEF_SHAPES for name, _, _ in DEF_TYPES]
 
 
 if __name__ == "__main__":
